@@ -188,6 +188,68 @@ def check_class(ck, prop, ci):
     return n
 
 
+ALLOCATORS = ("zeros", "ones", "empty", "full", "array", "zeros_like", "ones_like", "empty_like", "full_like", "arange", "list", "dict", "set", "deque",
+              "defaultdict", "OrderedDict", "bytearray", "copy", "deepcopy", "DataFrame", "Series")
+
+
+def _allocation(e):
+    """expression that creates a fresh mutable object"""
+    if isinstance(e, (ast.List, ast.Dict, ast.Set, ast.ListComp, ast.DictComp, ast.SetComp)):
+        return True
+    if isinstance(e, ast.Call):
+        f = e.func
+        nm = f.attr if isinstance(f, ast.Attribute) else (f.id if isinstance(f, ast.Name) else None)
+        return nm in ALLOCATORS
+    if isinstance(e, ast.BinOp) and isinstance(e.op, ast.Mult):
+        return _allocation(e.left) or _allocation(e.right)
+    return False
+
+
+def check_distinct_state(ck, prop, ci):
+    """G4: two attributes of one object never name one mutable allocation (`self.a = self.b = np.zeros(..)`, or one local holding a
+    fresh array stored under two names): an in-place write through one of them silently changes what the other one reports"""
+    from .rules import who_writes
+    n = 0
+    for m in ci.methods.values():
+        try:
+            fl = flow_of(m)
+        except Exception:
+            continue
+        shared = {}
+        for node in fl.cfg.nodes:
+            if node.kind != "stmt" or not isinstance(node.stmt, ast.Assign):
+                continue
+            attrs = [t for t in node.stmt.targets if isinstance(t, ast.Attribute) and isinstance(t.value, ast.Name) and t.value.id == "self"]
+            if not attrs:
+                continue
+            v = node.stmt.value
+            key = None
+            if _allocation(v):
+                key = id(v)
+            elif isinstance(v, ast.Name):
+                ds = fl.defs_at(node, v.id)
+                if len(ds) == 1:
+                    d = next(iter(ds))
+                    dv = getattr(getattr(d, "stmt", None), "value", None)
+                    if dv is not None and isinstance(d.stmt, ast.Assign) and len(d.stmt.targets) == 1 and isinstance(d.stmt.targets[0], ast.Name) and _allocation(dv):
+                        key = id(dv)
+            if key is None:
+                continue
+            for t in attrs:
+                n += 1
+                shared.setdefault(key, []).append((t.attr, node))
+        for key, lst in shared.items():
+            names = sorted({a for a, _ in lst})
+            if len(names) < 2:
+                continue
+            inplace = [a for a in names if any(k in ("subassign", "aug") or k.startswith("mut:") for _, k, _, _ in who_writes(ck.repo, a))]
+            if inplace:
+                ck.violation(f"{prop}.G4", m, lst[-1][1].stmt, f"{ci.name}.{' and '.join(names)} are bound to one and the same freshly created object; "
+                             f"`{inplace[0]}` is written in place elsewhere, so every such write also changes `{[x for x in names if x != inplace[0]][0]}`",
+                             sink=f"{ci.name}.{'+'.join(names)}:shared-allocation")
+    return n
+
+
 def run(ck, prop, analysed):
     """analysed: {qualified name: module} of the functions the property's rules built flow graphs for"""
     repo = ck.repo
@@ -203,6 +265,9 @@ def run(ck, prop, analysed):
             if f.cls is not None and "/tests/" not in f.cls.module:
                 classes[(f.cls.name, f.cls.module)] = f.cls
     m = 0
+    k4 = 0
     for key in sorted(classes):
         m += check_class(ck, prop, classes[key])
+        k4 += check_distinct_state(ck, prop, classes[key])
+    ck.count("attribute stores of fresh allocations under the distinct-state rule", k4)
     ck.count("attribute reads under the definite-initialisation rule", m)
